@@ -376,9 +376,9 @@ def univariate_cases(rng, n):
 def generate(rng, tier, corpus_only=False):
     n = 1 if tier == "quick" else 12
     cases = []
-    cases += multivariate_cases(rng, 700 * n)
-    cases += integer_cases(rng, 60 * n)
-    cases += univariate_cases(rng, 900 * n)
+    cases += multivariate_cases(rng, 2500 * n)
+    cases += integer_cases(rng, 120 * n)
+    cases += univariate_cases(rng, 2500 * n)
     return cases
 
 
